@@ -98,6 +98,7 @@ package gorm
 //@   ensures tx-stays-tx: config.PrepareStmt && is(db.Statement.ConnPool, Tx) ==> is(result.Statement.ConnPool, *PreparedStmtTX) && result.Statement.ConnPool.(*PreparedStmtTX).Tx == db.Statement.ConnPool [C04,C05]
 //@   ensures error-kept: result.Error == db.Error [C05]
 //@   ensures statement-shared-or-fresh: result.Statement == db.Statement || fresh(result.Statement) [C06,C04]
+//@   ensures own-statement-with-a-context: config.Context != nil ==> fresh(result.Statement) [C04,C06,C18]
 //@   ensures skiphooks: result.Statement.SkipHooks == (db.Statement.SkipHooks || config.SkipHooks) [C13]
 
 //@ # ---------- chain methods write only memory allocated by the call (C06) ----------
@@ -973,16 +974,17 @@ package gorm
 //@ # ---------- C14: "prepared at most once": a statement is put into the cache only after the cache was looked up
 //@ # under the same hold of the write lock (the double check), see the events above; inside a transaction the cached
 //@ # statement is run through the transaction (Tx.StmtContext), never directly on the connection it was prepared on.
-//@ ghost lastLookupHeld txStmt
+//@ ghost lastLookupHeld txStmt viaTx
 //@ event invoke Tx.StmtContext
 //@   in gorm.(*PreparedStmtTX).*
 //@   do txStmt = ref(result)
+//@   do viaTx = 1
 //@ site transaction-runs-the-statement-through-the-transaction
 //@   match call database/sql.(*Stmt).ExecContext | call database/sql.(*Stmt).QueryContext | call database/sql.(*Stmt).QueryRowContext
 //@   in gorm.(*PreparedStmtTX).*
 //@   min-sites 3
-//@   entry txStmt == 0
-//@   assert statement-bound-to-the-transaction: txStmt != 0 && ref(arg0) == txStmt [C14,C04]
+//@   entry viaTx == 0
+//@   assert statement-bound-to-the-transaction: viaTx == 1 && ref(arg0) == txStmt [C14,C04]
 
 //@ # ---------- C08/C03: a tolerated parse error still leaves the schema parsed so far in the statement ----------
 //@ # With an explicit Table(...) an "unsupported data type" error of the model is ignored by the callers; the schema
